@@ -2,6 +2,7 @@
 spec: VerdictDecl.tla (truth table, accounting laws), Verdict.tla (report machine + generator)."""
 import json
 import os
+import sys
 import vf
 
 
@@ -100,6 +101,11 @@ def run(ctx):
         ctx.candidate(key, "report(): %s; cases=%s" % ("; ".join(r["why"]), json.dumps(r["scn"]["cases"])), r)
     if not ctx.replay:
         run_level(ctx, binp)
+        # the verdict is over the fates that the batch runner records (a case whose server died or exited before it was
+        # sent must be recorded as a setup error, whatever the exit status): ServerBatch.tla's binding, quick bounds
+        sys.path.insert(0, os.path.dirname(os.path.abspath(__file__)))
+        import c11
+        c11.batch_leg(ctx, True, False)
     ctx.cov["evaluations"] += len(scns)
     ctx.cov["traces_validated_against_impl"] += len(scns)
     ctx.cov["distinct_nontrivial"] += sum(1 for s in scns if not s["success"] or s["expected"])
@@ -109,6 +115,8 @@ def run(ctx):
     ctx.cov["rule"] = ("every assignment of {pass, assertFail, clientErr, setupErr, noResult, couldNotRun, absent} x {unmarked, known-failing, "
                        "known-flaky} x {feedback} to 3 cases (feedback only where a peer saw the case), materialised through the real "
                        "assert/failed/failedToStart/failRemaining/setOutcome/recordSideband API in seeded order, report() called, verdict + "
-                       "named cases + totals compared; non-trivial = not a success or has an expected failure. Exhaustive for 3 cases.")
+                       "named cases + totals compared; non-trivial = not a success or has an expected failure. Exhaustive for 3 cases. The fates "
+                       "themselves (which cases become setup errors when a server dies, exits cleanly or cannot start) are recorded by the "
+                       "batch runner: every fault script of ServerBatch.tla for 2 cases is run on the real runTestCasesForServer as well.")
     ctx.assumptions += ["AsImplemented_PeerProtocolErrorFailsRun: garbage on a peer's stdout or a non-zero exit status fails the run even if all cases were met",
                         "AsImplemented_CouldNotRunCountedNotNamed: could-not-run cases are reported by count, not by name"]
